@@ -500,9 +500,12 @@ def run_plain(argv, roots=(), want_state=False):
             if m not in saved_mods:
                 mod = sys.modules.get(m)
                 f = getattr(mod, '__file__', None) or ''
-                p = getattr(mod, '__path__', None)
+                try:
+                    pl = [str(x) for x in (getattr(mod, '__path__', None) or ())]
+                except Exception:      # namespace path of a vanished parent
+                    pl = list(roots)
                 if (any(f.startswith(r) for r in roots) or
-                        (p and any(str(x).startswith(r) for x in list(p) for r in roots)) or
+                        any(x.startswith(r) for x in pl for r in roots) or
                         not f):
                     del sys.modules[m]
         import importlib
